@@ -740,6 +740,41 @@ def h5(rec, world):
         r = world.hc.cache_xml_versions(cache_folder=world.cache)
         if not want and r != -1:
             rec.violation("C19:H5:cache_xml_versions-not-skipped-within-interval", delta=delta, result=r)
+    # histories of refresh attempts on one directory: every sequence of up to four gaps from the menu; an attempt is
+    # let in exactly when the interval has passed since the last attempt that was let in (model: one number)
+    import itertools
+    menu = (1, CACHE_TIME_THRESHOLD - 1, CACHE_TIME_THRESHOLD, 2 * CACHE_TIME_THRESHOLD)
+    for length in (2, 3, 4):
+        for gaps in itertools.product(menu, repeat=length):
+            world.reset()
+            now = t0
+            world.clock["default"] = now
+            with CacheLock(world.cache):
+                pass
+            last = now
+            got, want_seq = [], []
+            for gap in gaps:
+                now += gap
+                world.clock["default"] = now
+                entered = False
+                try:
+                    with CacheLock(world.cache):
+                        entered = True
+                except CacheException:
+                    pass
+                except BaseException as e:
+                    entered = "raised:" + type(e).__name__
+                want = now - last >= CACHE_TIME_THRESHOLD
+                if want:
+                    last = now
+                got.append(entered)
+                want_seq.append(want)
+                rec.n("transitions")
+            rec.n("evaluations")
+            rec.state(("H5-history", gaps))
+            if got != want_seq:
+                rec.violation("C19:H5:history:refresh-interval-not-respected", gaps=list(gaps), entered=got, model=want_seq)
+            rec.outcome("H5:history:" + "".join("x" if g is True else "-" for g in got)[:2])
     # a refresh attempt that fails (server unreachable) is an attempt: the next one within the interval is skipped and
     # performs no request
     world.reset()
